@@ -14,6 +14,11 @@
 (* is a different object) and one bit `pending`.  Repeated notifications      *)
 (* between two polls collapse into that one bit.                              *)
 (*                                                                            *)
+(* Destruction comes in both orders as single actions (DestroyObservable with *)
+(* observers attached, DestroyObserver before or after its observable) and as *)
+(* Teardown(order): everything alive goes, observers first or observables     *)
+(* first, as at the end of a scope.                                           *)
+(*                                                                            *)
 (* The ghost variable `last` = [a, arg, cls, exp] carries the action just     *)
 (* taken, its arguments, its input class (for signatures) and what the        *)
 (* contract says the call returns.  The only observable of the real API is    *)
@@ -57,6 +62,8 @@ CanPoll(b)              == b \in Watchers /\ balive[b]
 CanDestroyObservable(o) == o \in Subjects /\ oalive[o]
 CanDestroyObserver(b)   == b \in Watchers /\ balive[b]
 CanPollAll              == \E b \in Watchers : balive[b]
+CanTeardown(order)      == /\ order \in {"observers_first", "observables_first"}
+                           /\ (\E b \in Watchers : balive[b]) \/ (\E o \in Subjects : oalive[o])
 
 PollCls(b) == IF att[b] = None THEN "orphaned" ELSE IF pending[b] THEN "notified" ELSE "not-notified"
 
@@ -119,11 +126,23 @@ DestroyObserver(b) ==
   /\ last' = [a |-> "DestroyObserver", arg |-> [b |-> b],
               cls |-> IF att[b] = None THEN "orphaned" ELSE "attached", exp |-> Void]
 
+\* everything that is alive is destroyed: all observers then all observables, or the other way round
+\* (the end of a scope; a composite of the two actions above, so both orders are taken from every state)
+Teardown(order) ==
+  /\ CanTeardown(order)
+  /\ oalive' = [o \in Subjects |-> FALSE]
+  /\ balive' = [b \in Watchers |-> FALSE]
+  /\ att' = [b \in Watchers |-> None]
+  /\ pending' = [b \in Watchers |-> FALSE]
+  /\ last' = [a |-> "Teardown", arg |-> [order |-> order],
+              cls |-> IF \E b \in Watchers : att[b] # None THEN "attached" ELSE "detached", exp |-> Void]
+
 Next ==
   \/ \E o \in Subjects : CreateObservable(o) \/ Notify(o) \/ DestroyObservable(o)
   \/ \E b \in Watchers : Poll(b) \/ DestroyObserver(b)
   \/ \E b \in Watchers, o \in Subjects : CreateObserver(b, o)
   \/ PollAll
+  \/ \E order \in {"observers_first", "observables_first"} : Teardown(order)
 
 Spec == Init /\ [][Next]_vars
 
